@@ -121,6 +121,20 @@ theorem superseded_local_snapshot_is_harmless (fops : List Op) (r : C) (o : Outc
       | failBefore => exact ⟨hres, hdb, htl⟩
       | failAfter => exact ⟨hres, hdb, htl⟩
 
+/-- An install is two steps — the leader's snapshot is put into the follower's snapshot store (its
+sink is closed), then fsmRestore replaces the database. If the process dies in between, the next
+start must come up with the database of the newest snapshot, which is now the installed one; the
+old database file (and a clean-snapshot marker that still matches it: the fast-restart path of
+Store.Open, C03) must not be reused. In the model the start restores from the snapshot store;
+the correspondence run makes this start an ORDINARY one (marker left in place) on the real store. -/
+theorem interrupted_install_restart_holds_installed_snapshot (ops : List Op) (c : C) :
+    let r := step 3 (run 3 {} ops) (.installCrash c)
+    r.2 = "ok" ∧ r.1.db = c ∧ resolve r.1.snaps = some c ∧ r.1.tail = [] ∧ r.1.staged = [] := by
+  intro r
+  have hres : resolve ((run 3 {} ops).snaps ++ [Snap.full c]) = some c := resolve_full_last _ _
+  simp only [r, step, restartSM, hres, replay, List.foldl_nil, fileAfter, hasLoad, List.any_nil, Bool.or_false]
+  exact ⟨trivial, trivial, trivial, trivial, trivial⟩
+
 /-! ### the defects repaired in /repo, kept as checked counterexamples on the older code levels -/
 
 /-- 6482ad3 (level 0 → 1): a staged WAL left by a snapshot that was not persisted survives the full
